@@ -310,6 +310,12 @@ func checkCmd(args []string) int {
 			nObl--
 			continue
 		}
+		if r.res.Status == "conditional" {
+			// proved, but relative to a callee contract that failed in this run: the failed premise is what is reported
+			undecided = append(undecided, name+" (conditional on a failed premise)")
+			nObl--
+			continue
+		}
 		// a claimed obligation failed
 		rp := writeReplay(w, prop, r)
 		suffix := ""
